@@ -4,7 +4,8 @@ from ..comp import costsonly as CO
 
 ID = 'C17'
 P = 'EAO.Properties.C17'
-THEOREMS = S.THEOREMS_C17 + CO.THEOREMS_C17_COSTS
+from ..comp import costsonly2 as CO2
+THEOREMS = S.THEOREMS_C17 + CO.THEOREMS_C17_COSTS + CO2.THEOREMS_C17_COSTS2
 PARTIAL = S.PARTIAL_C17
 COMPONENTS = ['makeSlp vs stoch_lin_prog.make_slp (full problem incl. mapping labels and slp column)', 'SLP read-out (dispatch of future steps averaged) vs io.extract_output', 'robust value']
 RULE = ('small LP portfolios (one row per variable, several rows per variable, row-less variables, scaled asset), boundary at first/last step/off-grid, 1-4 samples; '
